@@ -9,6 +9,7 @@ mod calls;
 mod common;
 mod fmt;
 mod gen;
+mod l0;
 mod nf;
 mod run;
 mod semi;
@@ -30,6 +31,7 @@ fn main() {
         "c18" => c18::main(&args[2..]),
         "fmt" => fmt::main(&args[2..]),
         "gen" => gen::main(&args[2..]),
+        "l0" => l0::main(&args[2..]),
         "run" => run::main(&args[2..]),
         "semi" => semi::main(&args[2..]),
         other => {
